@@ -467,6 +467,8 @@ class Normalizer:
         if orient is None:
             if len(L) != 1 or (len(R) == 1 and len(R[0].atoms) > len(L[0].atoms)):
                 L, R = R, L
+        if not L and not R:
+            return                # 0 = 0: already derivable from the rules present (e.g. the adjoint image of an earlier hypothesis)
         def _plain(P):
             # rules are keyed by atom identity: a left-hand side must not carry diagonal exponents other than 1
             return len(P) == 1 and not P[0].scal and all((not a.diag) or _is_num(a.exp, 1) for a in P[0].atoms)
